@@ -4,7 +4,7 @@
 #include "h.h"
 
 static const char *CLS[] = { "other_coin_checksum_error", "same_coin_ok", "phrases_differ_in_word2_only", NULL };
-#define MAXS 8
+#define MAXS 80
 static rseed SEEDS[MAXS]; static int NS;
 static int KO_EXTREMAL = -1; static unsigned KO_C1;
 static int LANG_A_ALL[R_NLANG];     /* 1 = all A, 0 = 32 values of A */
@@ -51,6 +51,15 @@ static void one_A(int si, int li, unsigned A, struct res *r, long x, int full) {
         polyseed_data *d = NULL;
         int st = polyseed_decode_explicit(phA, (polyseed_coin)B, lang, &d); r->calls++; r->cases++;
         r->digest ^= mix64((uint64_t)x * 2048 + B, st);
+        /* automatic detection is bound to the coin in the same way: for A itself and for three wrong coins the reference detector decides */
+        if (B == A || B == (A ^ 1) || B == (A ^ 128) || B == (A ^ 1024)) {
+            const polyseed_lang *lo_ = NULL; polyseed_data *da = NULL; int as = polyseed_decode(phA, (polyseed_coin)B, &lo_, &da); r->calls++; r->cases++;
+            uint8_t ga[32], ea[32]; memset(ga, 0, 32); memset(ea, 0, 32); if (as == POLYSEED_OK) { polyseed_store(da, ga); polyseed_free(da); }
+            rseed ra; int ml = -1; int ma = ref_decode(phA, B, -1, 7, 0, CAP, &ra, &ml); if (ma == 0) ref_storage(&ra, ea);
+            if (as != ma || memcmp(ga, ea, 32) || (as == POLYSEED_OK && lang_index(lo_) != ml)) { sprintf(rep, "case %s %u %u %d %u %u", h, SEEDS[si].birthday, SEEDS[si].features, li, A, B); snprintf(key, sizeof key, "c05:auto:%s", RL[li].code);
+                res_viol(r, key, rep, "phrase for coin %u through automatic detection for coin %u: status %d (language %d), the reference detector says %d (language %d)%s", A, B, as, as == 0 ? lang_index(lo_) : -1, ma, ml, as == 0 && ma == 0 && memcmp(ga, ea, 32) ? ", another seed" : ""); }
+            else r->validated++;
+        }
         if (B != A) {
             if (st == POLYSEED_OK) polyseed_free(d);
             if (st != POLYSEED_ERR_CHECKSUM) { sprintf(rep, "case %s %u %u %d %u %u", h, SEEDS[si].birthday, SEEDS[si].features, li, A, B); snprintf(key, sizeof key, "c05:wrongcoin:%s", RL[li].code); res_viol(r, key, rep, "phrase for coin %u decoded for coin %u returned %d", A, B, st); }
@@ -130,8 +139,11 @@ int main(int argc, char **argv) {
             if (RL[2].wlen[c0] == mx) { c[0] = c0; ref_from_coeffs(c, &SEEDS[NS]); KO_EXTREMAL = NS; KO_C1 = c[1]; NS++; break; }
         }
     }
-    JOBS = malloc(sizeof(struct job) * (NS + 1) * R_NLANG * (2048 + 2048 + 32));
+    /* 64 more seeds (the first word of a phrase - the check word - depends on the seed, not on the coin): four coins each, every language, A and a handful of B */
+    int first_extra = NS; for (int i = 0; i < 64 && NS < MAXS; i++) { rseed *s = &SEEDS[NS++]; memset(s, 0, sizeof *s); for (int j = 0; j < 19; j++) s->secret[j] = (uint8_t)prng(&ps); s->secret[18] &= 0x3F; s->birthday = prng(&ps) & 1023; s->features = prng(&ps) & 23; }
+    JOBS = malloc(sizeof(struct job) * ((NS + 1) * R_NLANG * 4 + 4 * R_NLANG * (2048 + 2048 + 32)));
     for (int si = 0; si < NS; si++) for (int li = 0; li < R_NLANG; li++) {
+        if (si >= first_extra) { for (int q = 0; q < 4; q++) JOBS[NJ++] = (struct job){ si, li, (unsigned)((si * 397 + q * 613 + li * 31) & 2047), 0 }; continue; }
         if (si == KO_EXTREMAL) { if (li == 2) { size_t mx = 0; for (unsigned i = 0; i < R_NW; i++) if (RL[2].wlen[i] > mx) mx = RL[2].wlen[i]; for (unsigned A = 0; A < 2048; A++) if (RL[2].wlen[KO_C1 ^ A] == mx) JOBS[NJ++] = (struct job){ si, li, A, 1 }; } continue; }
         int all = LANG_A_ALL[li] && (li == 0 || si < 2);
         if (li >= 8 && si >= 2) continue;       /* Chinese (linear search): two seeds */
